@@ -389,6 +389,7 @@ func c02Corpus(c *runner.Ctx, idx uint64) {
 		"len(-2..9223372036854775807)", "A in -4611686018427387904..0", "A in 1..2000000", "(9223372036854775806..-9223372036854775807)[1:3]",
 		// a folded negative zero next to a positive one; folded sequences inside map values; a folded pattern that is never matched
 		"[1 / 0.0, 1 / ((-2) ** -1075)]", "[0.0, (-2) ** -1075, 1 / ((-2) ** -1075)]", `{"a": 1..2} == {"a": [1, 2]}`, `{"a": [1, 2]} == {"a": [1, 2]}`, `{"k": {"a": [1, "b"]}} == {"k": {"a": [1, "b"]}}`, `[{"a": 1..2}] == [{"a": [1, 2]}]`,
+		`any(map([NilIt, PIt], {#?.ID}), {# in [1, 2]})`, `map([NilIt, PIt], {#?.ID})[0] not in [7, 8]`, `all(map([NilIt], {#?.Name}), {# in ["a"]})`,
 		`false and S matches "[" + "a"`, `false ? "x" matches "(" + "a" : false`, `true or S matches "*" + ""`,
 	}
 	for _, s := range srcs {
